@@ -7,6 +7,7 @@ mod extra;
 mod gen;
 mod matrix;
 mod packed;
+mod steps;
 mod stream;
 
 use std::collections::HashMap;
@@ -115,6 +116,11 @@ fn main() {
             let scale: usize = get("scale", "1").parse().unwrap();
             let n = extra::run_build(&out, shards, seed, scale);
             println!("{{\"events\":{}}}", n);
+        }
+        "steps" => {
+            let scale: usize = get("scale", "1").parse().unwrap();
+            let (c, e) = steps::run(&out, shards, seed, scale, &mks);
+            println!("{{\"contexts\":{},\"events\":{}}}", c, e);
         }
         "ids" => {
             let scale: usize = get("scale", "1").parse().unwrap();
